@@ -211,6 +211,8 @@ def run(ctx):
         dict(tag='', packed=False),
         dict(tag='', packed=False, bitfields=False, flex=True),
         dict(tag='packed-nobitfield:', packed=True, bitfields=False),
+        dict(tag='packed-zerowidth:', packed=True, bitfields=False, zw_alone=True),
+        dict(tag='zerowidth-alone:', packed=False, bitfields=False, zw_alone=True),
     ]
     k = 0
     while k < ntypes:
